@@ -80,6 +80,8 @@ class Tr:
             if t.T.is_fun():
                 raise Outside('function constant as a value')
             return self.atom(t)
+        if t.is_let() and t.arg.is_abs():
+            return self.tr(t.arg.subst_bound(t.arg1))
         if t.is_forall() or t.is_exists():
             from kernel.term import Var
             ab = t.arg
